@@ -87,7 +87,7 @@ def render(rng, which):
                     lines.append("%s%s %s: iterations=%d runtime: %s%ss" % (prefix, name, crit, rng.randint(1, 9999), v, u))
                     dp.append((crit, "ms", frac(v) / (1000 if u == "u" else 1)))
                     continue
-                v, u = n(rng), rng.choice(["kb", "byte", "ms", "B", "s", "MiB"])
+                v, u = n(rng), rng.choice(["kb", "byte", "ms", "B", "s", "MiB", "us", "ns", "us"])
                 # \s* after the colon: white space of any script
                 lines.append("%s%s: %s:%s%s%s" % (prefix, name, crit, rng.choice(["", " ", "    ", "\t", "\u00a0", "\u3000 ", " \x85"]), v, u))
                 dp.append((crit, u, frac(v)))
